@@ -81,12 +81,14 @@ class C20(Prop):
             '<=> text does not end in \\n/\\r. Crashes are bucketed by (exception type, innermost parso function). '
             'Non-trivial: >=1 issue reported or the tree has a bracket/backslash continuation line.')
     assumptions = ['crash buckets listed in known_findings.json are carried as findings; any other bucket is a violation']
-    budgets = {'quick': 16000, 'thorough': 400000}
+    budgets = {'quick': 48000, 'thorough': 600000}
 
     def strategy(self, tier):
         kinds = ('repo',) if tier == 'quick' else ('repo', 'stdlib3.12')
         w = {'stmt': 6, 'layout': 8, 'comment': 3, 'op': 6}
-        text = T.adversarial_text(max_frags=20, corpus_kinds=kinds, weights=w, nest_depth=25)
+        text = st.one_of(T.adversarial_text(max_frags=20, corpus_kinds=kinds, weights=w, nest_depth=25),
+                         T.adversarial_text(max_frags=20, corpus_kinds=kinds, weights=w, nest_depth=25),
+                         T.derived_text(), T.derived_text())      # grammatical programs reach the style rules' deep branches
         return st.fixed_dictionaries({
             'code': text, 'version': T.version(), 'config': st.sampled_from(CONFIGS),
             'history': st.lists(st.tuples(st.sampled_from(['delline', 'dupline', 'ins', 'del']), st.integers(0, 10 ** 6),
